@@ -156,7 +156,11 @@ func (t *IDTokenClaims) GetAccessTokenHash() string {
 }
 
 func (t *IDTokenClaims) SetUserInfo(i *UserInfo) {
-	t.Subject = i.Subject
+	// the subject is a required claim of the ID token: userinfo that does not state one
+	// (e.g. because the openid scope was not granted) must not erase it.
+	if i.Subject != "" {
+		t.Subject = i.Subject
+	}
 	t.UserInfoProfile = i.UserInfoProfile
 	t.UserInfoEmail = i.UserInfoEmail
 	t.UserInfoPhone = i.UserInfoPhone
